@@ -236,8 +236,14 @@ func (s *Scanner) parseCertificate(
 	switch err.(type) {
 	case x509.NonFatalErrors:
 		s.entriesWithNonFatalErrors++
+		if verifCTHook != nil {
+			verifCTHook("ctr", -1, 3, index, nil)
+		}
 	default:
 		s.unparsableEntries++
+		if verifCTHook != nil {
+			verifCTHook("ctr", -1, 2, index, nil)
+		}
 		isFatal = true
 	}
 
@@ -289,6 +295,9 @@ func (s *Scanner) parseCertificate(
 // Processes the given |entry| in the specified log.
 func (s *Scanner) processEntry(entry ct.LogEntry, foundCert func(*ct.LogEntry, string), foundPrecert func(*ct.LogEntry, string)) {
 	atomic.AddInt64(&s.certsProcessed, 1)
+	if verifCTHook != nil {
+		verifCTHook("ctr", -1, 0, entry.Index, nil)
+	}
 	switch entry.Leaf.TimestampedEntry.EntryType {
 	case ct.X509LogEntryType:
 		if s.opts.PrecertOnly {
@@ -342,6 +351,9 @@ func (s *Scanner) processEntry(entry ct.LogEntry, foundCert func(*ct.LogEntry, s
 		}
 
 		s.precertsSeen++
+		if verifCTHook != nil {
+			verifCTHook("ctr", -1, 1, entry.Index, nil)
+		}
 	}
 }
 
@@ -350,7 +362,13 @@ func (s *Scanner) processEntry(entry ct.LogEntry, foundCert func(*ct.LogEntry, s
 // Returns true over the |done| channel when the |entries| channel is closed.
 func (s *Scanner) matcherJob(id int, entries <-chan matcherJob, foundCert func(*ct.LogEntry, string), foundPrecert func(*ct.LogEntry, string), wg *sync.WaitGroup) {
 	for e := range entries {
+		if verifCTHook != nil {
+			verifCTHook("deq", id, e.index, e.entry.Index, nil)
+		}
 		s.processEntry(e.entry, foundCert, foundPrecert)
+		if verifCTHook != nil {
+			verifCTHook("done", id, e.index, 0, nil)
+		}
 	}
 	s.logger.Debugf("Matcher %d finished", id)
 	wg.Done()
@@ -364,10 +382,16 @@ func (s *Scanner) matcherJob(id int, entries <-chan matcherJob, foundCert func(*
 // Sends true over the |done| channel when the |ranges| channel is closed.
 func (s *Scanner) fetcherJob(id int, ranges <-chan fetchRange, entries chan<- matcherJob, wg *sync.WaitGroup) {
 	for r := range ranges {
+		if verifCTHook != nil {
+			verifCTHook("range", id, r.start, r.end, nil)
+		}
 		success := false
 		// TODO(alcutter): give up after a while:
 		for !success {
 			logEntries, err := s.logClient.GetEntries(r.start, r.end)
+			if verifCTHook != nil {
+				verifCTHook("fetch", id, r.start, int64(len(logEntries)), err)
+			}
 			if err != nil {
 				s.logger.Infof("Problem fetching from log: %s", err)
 				if err.Error() == "HTTP error: 500 Internal Server Error" {
@@ -382,6 +406,9 @@ func (s *Scanner) fetcherJob(id int, ranges <-chan fetchRange, entries chan<- ma
 			}
 			for _, logEntry := range logEntries {
 				logEntry.Index = r.start
+				if verifCTHook != nil {
+					verifCTHook("enq", id, r.start, r.end, nil)
+				}
 				entries <- matcherJob{logEntry, r.start}
 				r.start++
 			}
@@ -462,6 +489,9 @@ func (s *Scanner) Scan(foundCert func(*ct.LogEntry, string),
 	if s.opts.MaximumIndex == 0 {
 		stopIndex = int64(latestSth.TreeSize)
 	}
+	if verifCTHook != nil {
+		verifCTHook("sth", -1, int64(latestSth.TreeSize), stopIndex, nil)
+	}
 
 	ticker := time.NewTicker(time.Second)
 	startTime := time.Now()
@@ -474,6 +504,9 @@ func (s *Scanner) Scan(foundCert func(*ct.LogEntry, string),
 
 			throughput := float64(s.certsProcessed) / time.Since(startTime).Seconds()
 			remainingCerts := int64(stopIndex) - int64(s.opts.StartIndex) - s.certsProcessed
+			if verifCTHook != nil {
+				verifCTHook("tick", -1, remainingCerts, 0, nil)
+			}
 
 			if remainingCerts == 0 {
 				updater <- int64(stopIndex)
@@ -493,6 +526,9 @@ func (s *Scanner) Scan(foundCert func(*ct.LogEntry, string),
 	for start := s.opts.StartIndex; start < int64(stopIndex); {
 		end := min(start+int64(s.opts.BatchSize), int64(stopIndex)) - 1
 		ranges.PushBack(fetchRange{start, end})
+		if verifCTHook != nil {
+			verifCTHook("part", -1, start, end, nil)
+		}
 		start = end + 1
 	}
 	var fetcherWG sync.WaitGroup
@@ -510,10 +546,19 @@ func (s *Scanner) Scan(foundCert func(*ct.LogEntry, string),
 	for r := ranges.Front(); r != nil; r = r.Next() {
 		fetches <- r.Value.(fetchRange)
 	}
+	if verifCTHook != nil {
+		verifCTHook("closef", -1, 0, 0, nil)
+	}
 	close(fetches)
 	fetcherWG.Wait()
+	if verifCTHook != nil {
+		verifCTHook("fwait", -1, 0, 0, nil)
+	}
 	close(jobs)
 	matcherWG.Wait()
+	if verifCTHook != nil {
+		verifCTHook("mwait", -1, 0, 0, nil)
+	}
 	ticker.Stop()
 
 	s.logger.Infof("Completed %d %s certs in %s", s.certsProcessed, s.opts.Name, humanTime(int(time.Since(startTime).Seconds())))
